@@ -85,7 +85,7 @@ def plan_for(prop, tier):
             stages=[
                 dict(kind="worker", name="enum-hint-states", variant="asan", part="enum", runs=-1, block=100, hash_mod=97, key_mod=1),
                 dict(kind="worker", name="random-histories", variant="asan", part="random", runs=6000 if q else 150000, block=100, hash_mod=50, key_mod=1),
-                dict(kind="order", name="load-order-vs-single-zone-process", variant="asan", part="order", runs=20000 if q else 400000, block=100, hash_mod=50, key_mod=1),
+                dict(kind="order", name="load-order-vs-single-zone-process", variant="asan", part="order", runs=10000 if q else 250000, block=100, hash_mod=50, key_mod=1),
                 dict(kind="worker", name="cacheB", variant="asan", part="", runs=80000 if q else 2000000, block=1000, hash_mod=50, key_mod=1 if q else 16),
                 dict(kind="worker", name="cacheB-weak-hash", variant="asan", part="", runs=20000 if q else 500000, block=1000, hash_mod=50, key_mod=1 if q else 16, extra=["--weak-hash"]),
                 dict(kind="worker", name="hints-multitask-tsan", variant="tsan", part="hints", runs=60000 if q else 1500000, block=1000, hash_mod=50, key_mod=1 if q else 16),
